@@ -10,19 +10,34 @@ RULE = ("seeded task histories for nOS-V and/or Nanos6 processes with 1-4 thread
         "body on another thread's stack, pause of a parallel body, nest over a running body, second body of a non-parallel task, re-run of a "
         "non-resurrectable task, wrong body-id convention, unknown task/type, duplicates); distinct = hash of the action list; "
         "non-trivial = at least one body paused, nested or resurrected, or a fault injected")
-REAL = ["ovniemu -l (src/emu/**, incl. task.c/body.c) built from /repo's working tree"]
+REAL = ["ovniemu -l (src/emu/**, incl. task.c/body.c) built from /repo's working tree", "task.c/body.c additionally inside aux/task_harness.c (DFS over all op sequences whose prefix is accepted, depth 5 quick / 7 thorough, 32 symbols, 9+ flag pairs)"]
 STUB = ["libovni replaced by the independent trace writer sim/tracefmt.py", "traced machine and task/body FSMs = sim/world.py reference model"]
 ASSUMPTIONS = ["Nanos6: a task body region is never opened directly over another task body region (the runtime always has a region in between); "
                "such histories are don't-cares", "body id shown for non-parallel nOS-V tasks is 1 (internal convention) and is compared as such"]
 SHRINK_LIST = "actions"
-shrink_candidates = mgen.shrink_actions
+def shrink_candidates(case):
+    if case.get("kind") == "sweep":
+        if case["depth"] > 2:
+            c = dict(case)
+            c["depth"] = case["depth"] - 1
+            yield c
+        return
+    for c in mgen.shrink_actions(case):
+        yield c
 
 
 def keys(kind, ty):
     return ty in (10, 11, 12, 13, 14, 15, 35, 36, 37, 38) or (kind == "thread" and ty == 4)
 
 
+SWEEP_FLAGS = [(6, 6), (6, 1), (1, 6), (1, 1), (12, 12), (0, 15), (4, 4), (2, 8), (15, 0)]
+
+
 def gen(rng, tier, idx):
+    if idx % 40 == 39:
+        rs = rng.derive("sweep")
+        fl = SWEEP_FLAGS[(idx // 40) % len(SWEEP_FLAGS)] if rs.chance(70) else (rs.below(16), rs.below(16))
+        return {"kind": "sweep", "flags": list(fl), "depth": 5 if tier == "quick" else 7}
     rk = rng.derive("knobs")
     models = rk.choice([["nosv"], ["nanos6"], ["nosv", "nanos6"], ["nosv"], ["nanos6"]])
     desc = mgen.gen_world_desc(rng.derive("world"), nlooms=(1, 1), ncpus=(2, 4), nprocs=(1, 2), nthreads=(1, 4), models=models)
@@ -55,7 +70,31 @@ def gen(rng, tier, idx):
     return {"world": desc, "actions": g.actions, "lint": True, "faults": g.faults, "probes": g.probes, "nontrivial": nt}
 
 
+def run_sweep(case, ctx):
+    import subprocess
+    from .. import taskref
+    from ..framework import result, ihash
+    fa, fb = case["flags"]
+    ref, paths = taskref.dfs_stream((fa, fb), case["depth"])
+    p = subprocess.run([ctx.build.aux("task_harness"), str(fa), str(fb), str(case["depth"])], stdout=subprocess.PIPE, stderr=subprocess.PIPE, timeout=600)
+    got = p.stdout.decode(errors="replace").strip()
+    info = {"sim_ns": 0, "ihash": ihash(case), "nontrivial": True, "evals": len(ref), "size": 1,
+            "probes": {"task-module op attempts compared with the reference (bounded-exhaustive)": len(ref)},
+            "sample": {"kind": "task module sweep", "flags(task1,task2)": case["flags"], "depth": case["depth"], "attempts": len(ref)}}
+    if p.returncode != 0:
+        return result(False, "task-harness-crashed", None, "task_harness exit %s\n%s" % (p.returncode, p.stderr.decode(errors="replace")[-800:]), **info)
+    if got != ref:
+        i = next((i for i in range(min(len(ref), len(got))) if ref[i] != got[i]), min(len(ref), len(got)))
+        pth = paths[i] if i < len(paths) else ()
+        return result(False, "task-module-disagrees-with-reference", None,
+                      "flags (task 1, task 2) = %r: after the accepted prefix, the last op of [%s] is %s by task.c/body.c and %s by the reference"
+                      % (case["flags"], taskref.describe(pth), "accepted" if got[i:i + 1] == "1" else "refused", "accepted" if ref[i] == "1" else "refused"), **info)
+    return result(True, **info)
+
+
 def run(case, ctx):
+    if case.get("kind") == "sweep":
+        return run_sweep(case, ctx)
     r = mgen.run_machine_case(case, ctx, keys_filter=keys)
     r["nontrivial"] = case.get("nontrivial", True)
     return r
